@@ -31,11 +31,31 @@ fn hdr_for(ty: u8, len: usize) -> TlsRecordHeader {
     }
 }
 
+thread_local! {
+    /// record-layer version carried by the records handed to the real parser (scenario S3 sweeps it);
+    /// the reference never looks at it
+    pub static HDR_VERSION: std::cell::Cell<u16> = const { std::cell::Cell::new(0x0303) };
+}
+
 pub fn raw<'a>(r: &'a Rec) -> TlsRawRecord<'a> {
-    TlsRawRecord {
-        hdr: hdr_for(r.ty, r.data.len()),
-        data: &r.data,
+    let mut hdr = hdr_for(r.ty, r.data.len());
+    hdr.version = TlsVersion(HDR_VERSION.with(|v| v.get()));
+    TlsRawRecord { hdr, data: &r.data }
+}
+
+/// Run one history on a fresh real parser and the reference; the first disagreement, if any.
+pub fn run_history(alpha: &[Rec], ops: &[Op]) -> Option<(usize, String)> {
+    let mut p = TlsRecordsParser::default();
+    let mut st = RefState::default();
+    for (n, op) in ops.iter().enumerate() {
+        let before = (p.verif_defrag_buffer().to_vec(), p.verif_current_record_type().map(|t| t.0));
+        let (exp, region, unchanged) = ref_step(&mut st, op, alpha);
+        let obs = impl_step(&mut p, op, alpha, region);
+        if let Some(m) = compare(op, &before, &obs, &exp, region, unchanged, &st) {
+            return Some((n, m));
+        }
     }
+    None
 }
 
 // ---------------------------------------------------------------- reference model
